@@ -21,6 +21,6 @@ PROP = dict(
     units=[
         R("layout", "B", "./cmd/benchstat/internal/texttab", "TestC16Layout", (3000, 4), (100000, 16)),
         R("keyheader", "A", "./c16", "TestC16KeyHeader", (3000, 2), (100000, 8)),
-        R("textcsv", "B", "./cmd/benchstat", "TestC16TextCSV", (500, 8), (10000, 16)),
+        R("textcsv", "B", "./cmd/benchstat", "TestC16TextCSV", (500, 16), (10000, 16)),
     ],
 )
